@@ -5865,6 +5865,46 @@ void psX509FreeDNStruct(x509DNattributes_t *dn, psPool_t *allocPool)
 
 /******************************************************************************/
 /*
+    Test whether two parsed certificates are copies of one certificate: the
+    same TBSCertificate (compared through the digest computed at parse time,
+    or through the buffered TBSCertificate for signature algorithms that are
+    not pre-hashed, e.g. Ed25519) and the same signature value.  Equal
+    signature bytes alone do not identify a certificate: they can be pasted
+    into any other certificate.
+ */
+psBool_t psX509IsSameCert(const psX509Cert_t *a, const psX509Cert_t *b)
+{
+    if (a == NULL || b == NULL)
+    {
+        return PS_FALSE;
+    }
+    if (a->signatureLen == 0 || a->signatureLen != b->signatureLen ||
+        memcmpct(a->signature, b->signature, a->signatureLen) != 0)
+    {
+        return PS_FALSE;
+    }
+#  if defined(USE_ED25519) || defined(USE_ROT_ECC) || defined(USE_ROT_RSA) || (defined(USE_CL_RSA) && defined(USE_PKCS1_PSS))
+    if (a->tbsCertStart != NULL || b->tbsCertStart != NULL)
+    {
+        if (a->tbsCertStart == NULL || b->tbsCertStart == NULL ||
+            a->tbsCertLen != b->tbsCertLen)
+        {
+            return PS_FALSE;
+        }
+        return (memcmpct(a->tbsCertStart, b->tbsCertStart, a->tbsCertLen) == 0) ?
+               PS_TRUE : PS_FALSE;
+    }
+#  endif
+    if (a->sigHashLen == 0 || a->sigHashLen != b->sigHashLen)
+    {
+        return PS_FALSE;
+    }
+    return (memcmpct(a->sigHash, b->sigHash, a->sigHashLen) == 0) ?
+           PS_TRUE : PS_FALSE;
+}
+
+/******************************************************************************/
+/*
     Fundamental routine to test whether the supplied issuerCert issued
     the supplied subjectCert.  There are currently two tests that are
     performed here:
@@ -6005,8 +6045,11 @@ int32 psX509AuthenticateCert(psPool_t *pool, psX509Cert_t *subjectCert,
                 Valid CA to load: i2 or root
                 Invalid CA to load: l or i1
              */
-            if (sc->signatureLen == ic->signatureLen
-                && memcmpct(sc->signature, ic->signature, sc->signatureLen) == 0)
+            /* "A copy of intermediate is itself in the issuer list" means the
+                same certificate, not merely the same signature bytes; and a
+                certificate under its own self-signed test (sc == ic) is not
+                in the issuer list. */
+            if (sc != ic && psX509IsSameCert(sc, ic))
             {
                 /* Skip some of the signature and issuer checks */
                 goto L_INTERMEDIATE_ROOT;
